@@ -525,6 +525,31 @@ def gen_packets(ctx):
     return rc, log, packets, {g['id']: g for g in specs + seals}
 
 
+# Verdicts that rest on quiescence / a dead process / a possibly truncated observation rather than on what was decided:
+# reported only if the case run ALONE in a fresh driver process gives the same verdict three times out of three
+# (see c09.py); otherwise the evidence notes say "not reproduced in isolation (load)".
+LOAD_SENSITIVE = {'wedged', 'dropped', 'closed-not-web', 'web-not-transparent', 'valid-rejected', 'server-crash'}
+
+
+def load_sensitive(sig, o):
+    return sig in LOAD_SENSITIVE or o.get('uns') == '1' or o.get('hard') == '1'
+
+
+def reproduces_alone(ctx, c, what, judge, tag):
+    for i in range(c9.ISOLATION_TRIES):
+        rc1, log1, parsed1, mrc1, merr1, model1, _, _ = run_cases(ctx, [c], '%s%d' % (tag, i))
+        o1 = parsed1.get(c['id'])
+        if o1 is None:
+            got = 'server-crash' if rc1 != 0 and ('panic:' in log1 or 'fatal error' in log1) else None
+        elif 'auth' not in o1:
+            got = 'panic'
+        else:
+            got = judge(o1, model1.get(c['id']))
+        if got != what:
+            return False
+    return True
+
+
 def correspondence(ctx, verdict, pr):
     res = dict(broken=[])
     rc, log, packets, specs = gen_packets(ctx)
@@ -547,8 +572,19 @@ def correspondence(ctx, verdict, pr):
         cases = pre + cases
     rc, log, parsed, mrc, merr, model, dt, nx = run_cases(ctx, cases, 'cases', x_sample=6 if ctx.quick() else 60)
     if rc != 0:
-        res['broken'].append(('Go driver TestVerifC07 failed to build or run', log[-3000:]))
-        crash_attribution(ctx, verdict, cases, parsed, log)
+        attributed = crash_attribution(ctx, verdict, cases, parsed, log)
+        rest = [c for c in cases if parsed.get(c['id']) is None]
+        if not attributed and rest and len(rest) < len(cases):
+            rc2, log2, parsed2, mrc2, merr2, model2, dt2, nx2 = run_cases(ctx, rest, 'rest')
+            parsed.update({k: v for k, v in parsed2.items() if v is not None})
+            model.update(model2)
+            if rc2 == 0:
+                ctx.notes.append('driver process ended early after %d of %d cases, not reproduced in isolation (load): the remaining cases were run in a fresh process' % (len(cases) - len(rest), len(cases)))
+                rc, mrc = 0, max(mrc, mrc2)
+            else:
+                log = log2
+        if rc != 0:
+            res['broken'].append(('Go driver TestVerifC07 failed to build or run', log[-3000:]))
     if mrc != 0:
         res['broken'].append(('extracted model c07 failed', str(merr)[-2000:]))
     mism, fails, cats, outcomes = [], [], [], []
@@ -578,16 +614,46 @@ def correspondence(ctx, verdict, pr):
                 d = compare(o, xm.replace('x' + c['id'], c['id'], 1))
                 if d:
                     mism.append((c, o, xm, 'with the Gallina X25519: ' + d))
-    seen = {}
+    seen, tried, nload = {}, {}, 0
     for c, o, (sig, msg) in sorted(fails, key=lambda f: (len(f[0]['pkt']), f[0]['id'])):
         if sig in seen:
             continue
+        if load_sensitive(sig, o):
+            tried[sig] = tried.get(sig, 0) + 1
+            if tried[sig] > 4:
+                continue
+            if not reproduces_alone(ctx, c, sig, lambda o1, ml1: (oracle(c, STATES[c['st']], o1) or (None,))[0], 'iso'):
+                nload += 1
+                ctx.notes.append('oracle verdict [%s] on case %s (%s on %s) not reproduced in isolation (load): %d runs alone did not all give it' % (
+                    sig, c['id'], c['meta']['cat'], c['meta']['base'], c9.ISOLATION_TRIES))
+                continue
         seen[sig] = 1
         m = c['meta']
         verdict.oracle_failure(sig, 'C07 oracle [%s]: %s (case %s: %s on %s, state %s, server clock %d ns, client stamp %d s, changed bytes %s)' % (
             sig, msg, c['id'], m['cat'], m['base'], c['st'], c['now'], m['spec']['ts'], m['changed']),
             dict(case=c, state=STATES[c['st']], implementation=o, model=model.get(c['id']),
                  how='python3 tools/check.py C07 --replay <this file>'))
+    if mism:
+        n0 = len(mism)
+        sub = [m[0] for m in mism]
+        rcb, logb, parsedb, mrcb, merrb, modelb, _, _ = run_cases(ctx, sub, 'mism')
+        still = []
+        for c in sub:
+            ob = parsedb.get(c['id'])
+            d = compare(ob, modelb.get(c['id'])) if ob is not None and 'auth' in ob else 'no output'
+            if d:
+                still.append((c, ob, modelb.get(c['id']), d))
+        confirmed = []
+        for m in sorted(still, key=lambda m: (len(m[0]['pkt']), m[0]['id']))[:5]:
+            if reproduces_alone(ctx, m[0], True, lambda o1, ml1: bool(compare(o1, ml1)), 'isom'):
+                confirmed.append(m)
+                break
+        if not confirmed:
+            ctx.notes.append('%d model/implementation differences of the main run not reproduced in isolation (load): %d still differed in a fresh batch, none three times out of three alone' % (n0, len(still)))
+            nload += n0
+            mism = []
+        else:
+            mism = confirmed + [m for m in still if m is not confirmed[0]]
     if mism:
         c, o, ml, d = min(mism, key=lambda m: (len(m[0]['pkt']), m[0]['id']))
         res['broken'].append(('model Dispatch.v/Hello.v vs AuthFirstPacket/dispatchConnection: %d of %d cases differ' % (len(mism), len(cases)),
@@ -599,7 +665,7 @@ def correspondence(ctx, verdict, pr):
         samples=[dict(id=c['id'], cat=c['meta']['cat'], base=c['meta']['base'], st=c['st'], now=c['now'], pkt=c['pkt'][:100])
                  for c in (cases[ncorpus], cases[len(cases) // 2], cases[-1])],
         traces_validated_against_impl=sum(1 for v in parsed.values() if v is not None),
-        mismatches=len(mism), oracle_failures=len(fails), sessions_granted=nacc, gallina_x25519_recomputed=nx,
+        mismatches=len(mism), oracle_failures=len(fails), not_reproduced_in_isolation=nload, sessions_granted=nacc, gallina_x25519_recomputed=nx,
         input_distribution=dict(category=vlib.summarize_dist([k.split('@')[0] if k.startswith('auth') else
                                                               ('/'.join(k.split('/')[:3]) if k.startswith('forged') else k) for k in cats]),
                                 outcome=vlib.summarize_dist(outcomes)),
@@ -618,11 +684,17 @@ def crash_attribution(ctx, verdict, cases, parsed, log):
     k = cases.index(missing[0])
     c = None
     for cand in [cases[k]] + cases[max(0, k - 3):k][::-1]:
-        rc1, log1, parsed1, _, _, _, _, _ = run_cases(ctx, [cand], 'crash')
-        if rc1 != 0 and ('panic:' in log1 or 'fatal error' in log1):
+        died = 0
+        for i in range(c9.ISOLATION_TRIES):
+            rc1, log1, parsed1, _, _, _, _, _ = run_cases(ctx, [cand], 'crash')
+            if not (rc1 != 0 and ('panic:' in log1 or 'fatal error' in log1)):
+                break
+            died += 1
+        if died == c9.ISOLATION_TRIES:
             c = cand
             break
     if c is None:
+        ctx.notes.append('driver process died near case %s, not reproduced in isolation (load)' % cases[k]['id'])
         return False
     tail = [ln for ln in log1.splitlines() if ln.startswith(('panic:', 'goroutine ', '\t/repo', 'github.com/cbeuw/Cloak')) or '[signal' in ln][:14]
     m = c['meta']
